@@ -1766,7 +1766,7 @@ int h_rsp_op(const char *op, int argc, char **argv, FILE *out) {
     if (!strcmp(op, "idle")) return op_idle(argc, argv, out);
     if (!strcmp(op, "faultcmp") || !strcmp(op, "faultleak")) { /* observations of two runs, compared by the monitor: nothing to execute */
         fputs(op, out);
-        return argc == 2;
+        return argc == 2 || (argc == 3 && !strcmp(op, "faultcmp"));
     }
     if (!strcmp(op, "rxeval")) return op_rxeval(argc, argv, out);
     if (!strcmp(op, "reset")) return op_reset(argc, argv, out);
